@@ -1,8 +1,121 @@
 import Solvor.Common.Proto
 import Solvor.Cp.Model
-/-! Cp: line-protocol handler. One request line in, one reply line out. -/
-namespace Solvor.Cp
+/-! Cp: line-protocol handler. One request line in, one reply line out.
 
-def handle (line : String) : String := "unimplemented " ++ line
+request `["case", vars, cons, hints, limit, implSols, cnf, assumptions, satModels, litmap, mode]`
+  vars        : `[[lb, ub], …]`
+  cons        : constraints, see `parseCon`
+  hints       : `[[var, value], …]` (known names only, in dict order)
+  limit       : solution_limit
+  implSols    : assignments returned by the implementation, `[[v|null, …], …]`
+  cnf         : clause list captured at `solve_sat` (or `null`)
+  assumptions : literals passed as assumptions
+  satModels   : models returned by `solve_sat`, each the list of variables that are true
+  litmap      : per variable `[[value, boolean], …]` as in `IntVar.bool_vars`
+  mode        : bit 0 = projected enumeration of `cnf`, bit 1 = run the DFS mirror
+reply `[sols, hintSols, implChecks, mirrorCnf, chooseSat, dfsSols, cnfInfo]`
+  sols       : every solution of the model (verified enumerator `solutions`)
+  hintSols   : those compatible with the effective (in-domain) hints
+  implChecks : per implementation assignment `0` ok, `1` not one in-domain value per variable,
+               `2+k` constraint `k` violated (verified evaluator `check`)
+  mirrorCnf  : `encodeModel` (mirror of the repaired encoder)
+  chooseSat  : `_choose_solver` picks SAT
+  dfsSols    : solutions of the DFS mirror (repaired), or `null`
+  cnfInfo    : `null` or `[wf, satUnderAssumptions, satModelChecks, proj]`, `proj` = `null` or, per
+               projected model of `cnf`, per variable the list of values whose boolean is true
+-/
+namespace Solvor.Cp
+open Solvor.Proto Solvor.Cp.Sat
+
+partial def parseExpr : Val → Option Expr
+  | .arr [.str "v", .int i] => if i < 0 then none else some (.var i.toNat)
+  | .arr [.str "c", .int k] => some (.const k)
+  | .arr [.str "add", a, b] => do some (.add (← parseExpr a) (← parseExpr b))
+  | .arr [.str "sub", a, b] => do some (.sub (← parseExpr a) (← parseExpr b))
+  | .arr [.str "rsub", a, .int k] => do some (.rsub (← parseExpr a) k)
+  | .arr [.str "mul", a, .int k] => do some (.mul (← parseExpr a) k)
+  | _ => none
+
+def parseCon : Val → Option Con
+  | .arr [.str "alldiff", vs] => do some (.allDiff (← vs.toNats?))
+  | .arr [.str "eqc", v, .int k] => do some (.eqConst (← v.toNat?) k)
+  | .arr [.str "nec", v, .int k] => do some (.neConst (← v.toNat?) k)
+  | .arr [.str "eqv", a, b] => do some (.eqVar (← a.toNat?) (← b.toNat?))
+  | .arr [.str "nev", a, b] => do some (.neVar (← a.toNat?) (← b.toNat?))
+  | .arr [.str "rel", l, r, .bool ne] => do some (.rel (← parseExpr l) (← parseExpr r) ne)
+  | .arr [.str "sumeq", vs, .int t] => do some (.sumEq (← vs.toNats?) t)
+  | .arr [.str "sumle", vs, .int t] => do some (.sumLe (← vs.toNats?) t)
+  | .arr [.str "sumge", vs, .int t] => do some (.sumGe (← vs.toNats?) t)
+  | .arr [.str "circuit", vs] => do some (.circuit (← vs.toNats?))
+  | .arr [.str "noov", ss, ds] => do some (.noOverlap (← ss.toNats?) (← ds.toInts?))
+  | .arr [.str "cum", ss, ds, dm, .int cap] => do
+    some (.cumulative (← ss.toNats?) (← ds.toInts?) (← dm.toInts?) cap)
+  | _ => none
+
+def parseVars (v : Val) : Option (List VarDecl) := do
+  (← v.toIntss?).mapM fun
+    | [lb, ub] => some ⟨lb, ub⟩
+    | _ => none
+
+def parsePairs (v : Val) : Option (List (Nat × Int)) := do
+  (← v.toIntss?).mapM fun
+    | [i, x] => if i < 0 then none else some (i.toNat, x)
+    | _ => none
+
+/-- an implementation assignment: `null` entries (missing keys) make it fail `InDom` -/
+def parseSol (v : Val) : Option (List (Option Int)) := do
+  (← v.toArr?).mapM (Val.toOpt? Val.toInt?)
+
+def checkImpl (M : Model) (s : List (Option Int)) : Int :=
+  if s.any Option.isNone then 1 else
+  let a : Asg := s.map (·.getD 0)
+  if !(decide (InDom a M.vars)) then 1 else
+  match M.cons.zipIdx.find? fun p => !(check a p.1) with
+  | some p => 2 + (p.2 : Nat)
+  | none => 0
+
+def effHints (vars : List VarDecl) (hints : List (Nat × Int)) : List (Nat × Int) :=
+  hints.filter fun h => match vars[h.1]? with
+    | some d => decide (d.lb ≤ h.2) && decide (h.2 ≤ d.ub)
+    | none => false
+
+def handle (line : String) : String :=
+  match request line with
+  | some ("case", [vars, cons, hints, limit, impl, cnf, assum, smods, litmap, mode]) =>
+    match parseVars vars, (cons.toArr?.bind fun l => l.mapM parseCon), parsePairs hints, limit.toNat?,
+          (impl.toArr?.bind fun l => l.mapM parseSol), Val.toOpt? Val.toIntss? cnf, assum.toInts?,
+          smods.toNatss?, (litmap.toArr?.bind fun l => l.mapM parsePairs'), mode.toNat? with
+    | some vars, some cons, some hints, some limit, some impl, some cnf, some assum, some smods,
+      some litmap, some mode =>
+      let M : Model := ⟨vars, cons⟩
+      let sols := solutions M
+      -- dict semantics of hints: a later hint for the same name replaces the earlier one
+      let eff := effHints vars hints
+      let hintSols := sols.filter fun a => eff.all fun h => val a h.1 == h.2
+      let checks := impl.map (checkImpl M)
+      let dfs : Val := if mode / 2 % 2 == 1 then Val.ofIntss (dfsSolve true M hints limit) else Val.null
+      let info : Val := match cnf with
+        | none => Val.null
+        | some f =>
+          let wf := decide (WF f)
+          let satA := wf && solve (f ++ assum.map fun l => [l])
+          let mchk := smods.map fun ts => Val.bool (cnfTrue (ofTrue ts) f)
+          let proj : Val :=
+            if wf && mode % 2 == 1 then
+              let nb := litmap.foldl (fun m l => l.foldl (fun m p => max m p.2) m) 0
+              let ms := enumProj ((List.range nb).map (· + 1)) f
+              Val.arr (ms.map fun bs => Val.arr (litmap.map fun l =>
+                Val.ofInts ((l.filter fun p => bs.getD (p.2 - 1) false).map (·.1))))
+            else Val.null
+          Val.arr [Val.bool wf, Val.bool satA, Val.arr mchk, proj]
+      (Val.arr [Val.ofIntss sols, Val.ofIntss hintSols, Val.ofInts checks,
+        Val.ofIntss (encodeModel M), Val.bool (chooseSat M), dfs, info]).render
+    | _, _, _, _, _, _, _, _, _, _ => err "bad arguments"
+  | _ => err "bad request"
+where
+  parsePairs' (v : Val) : Option (List (Int × Nat)) := do
+    (← v.toIntss?).mapM fun
+      | [x, b] => if b < 0 then none else some (x, b.toNat)
+      | _ => none
 
 end Solvor.Cp
